@@ -714,8 +714,22 @@ func VerifC11_MySQLMasking() {
 	if !owner {
 		rh, rctx, _ = verifProxyWith(store, "B", setting)
 	}
-	if _, _, err := rh.queryObserverManager.OnQuery(rctx, emysql.NewOnQueryObjectFromQuery("select id, secret, plain from t", parser)); err != nil {
-		return
+	// the SELECT arrives directly, or through a SQL-level prepared statement (PREPARE name FROM '..'; EXECUTE name)
+	// whose name is spelled in lower or in mixed case
+	var stmts []string
+	switch verif.Choose("via", 0, 2) {
+	case 0:
+		stmts = []string{"select id, secret, plain from t"}
+	case 1:
+		stmts = []string{"prepare getrow from 'select id, secret, plain from t'", "execute getrow"}
+	case 2:
+		stmts = []string{"prepare GetRow from 'select id, secret, plain from t'", "execute GetRow"}
+	}
+	for _, st := range stmts {
+		if _, _, err := rh.queryObserverManager.OnQuery(rctx, emysql.NewOnQueryObjectFromQuery(st, parser)); err != nil {
+			verif.Assert(false, "select-observed-without-error")
+			return
+		}
 	}
 	row := base_mysql.PutLengthEncodedString([]byte("1"))
 	row = append(row, base_mysql.PutLengthEncodedString(stored)...)
@@ -801,4 +815,110 @@ func VerifC09_MySQLPreparedSearchNumeric() {
 		return
 	}
 	verif.Assert(verif.Eq(out[len(out)-hs:], stored[:hs]), "search-index-is-the-stored-prefix")
+}
+
+// VerifC09_MySQLTwoSearchablePlaceholders: two searchable columns searched in one prepared statement: each bound value
+// is replaced by the blind index its own column carries (the second one too).
+func VerifC09_MySQLTwoSearchablePlaceholders() {
+	store := verifKeys()
+	crypto.InitRegistry(nil)
+	env := config.CryptoEnvelopeTypeAcraBlock
+	schema, err := config.VerifNewStore(true, "t", []string{"id", "secret", "plain"},
+		&config.BasicColumnEncryptionSetting{Name: "secret", UsedClientID: "A", CryptoEnvelope: &env, Searchable: true},
+		&config.BasicColumnEncryptionSetting{Name: "plain", UsedClientID: "A", CryptoEnvelope: &env, Searchable: true})
+	if err != nil {
+		panic("schema: " + err.Error())
+	}
+	parser := sqlparser.New(sqlparser.ModeStrict)
+	setting := base.NewProxySetting(parser, schema, store, nil, nil, nil)
+	factory, err := NewProxyFactory(setting, store, nil)
+	if err != nil {
+		panic("factory")
+	}
+	ctx := base.SetAccessContextToContext(context.Background(), base.NewAccessContext(base.WithClientID([]byte("A"))))
+	sess := &verifSession{data: map[string]interface{}{}}
+	ctx = base.SetClientSessionToContext(ctx, sess)
+	sess.ctx = ctx
+	p, err := factory.New([]byte("A"), sess)
+	if err != nil {
+		panic("proxy: " + err.Error())
+	}
+	h := p.(*Handler)
+	a := verifMarker("first", 2)
+	b := verifMarker("second", 2)
+	q := "insert into t (id, secret, plain) values (1, '" + string(a) + "', '" + string(b) + "')"
+	obj, changed, err := h.queryObserverManager.OnQuery(ctx, emysql.NewOnQueryObjectFromQuery(q, parser))
+	if err != nil || !changed {
+		verif.Assert(false, "write-rewritten")
+		return
+	}
+	fwd := obj.Query()
+	s1, ok := verifStoredHexLiteral(fwd)
+	if !ok {
+		verif.Assert(false, "first-stored-as-hex-literal")
+		return
+	}
+	rest := fwd[strings.Index(fwd, "X'")+2:]
+	s2, ok := verifStoredHexLiteral(rest[strings.Index(rest, "'")+1:])
+	if !ok {
+		verif.Assert(false, "second-stored-as-hex-literal")
+		return
+	}
+	if !verifPrepare(h, ctx, parser, 1, "select id from t where secret = ? and plain = ?", 2) {
+		verif.Assert(false, "prepared")
+		return
+	}
+	packet := verifExecutePacket(1, [][]byte{a, b})
+	_, err = h.handleStatementExecute(ctx, packet)
+	verif.Reach("executed")
+	verif.Assert(err == nil, "execute-no-error")
+	if err != nil {
+		return
+	}
+	out, ok := verifExecuteParams(packet.GetData(), 2)
+	verif.Assert(ok, "forwarded-execute-well-formed")
+	if !ok {
+		return
+	}
+	verif.Assert(len(out[0]) == 33 && verif.Eq(out[0], s1[:33]), "first-index-is-the-stored-prefix")
+	verif.Assert(len(out[1]) == 33 && verif.Eq(out[1], s2[:33]), "second-index-is-the-stored-prefix")
+}
+
+// VerifC12_MySQLExecuteRewriteLayout: a COM_STMT_EXECUTE that Acra rewrites keeps its layout for every parameter
+// count around the NULL-bitmap byte boundary (7, 8, 9 parameters): re-decoded independently it has the same count,
+// the untouched values byte for byte, and ends exactly where the payload ends.
+func VerifC12_MySQLExecuteRewriteLayout() {
+	store := verifKeys()
+	h, ctx, parser := verifProxy(store, "A", config.CryptoEnvelopeTypeAcraBlock)
+	n := verif.Choose("params", 7, 9)
+	// table t has three columns; the statement updates the protected one and filters with n-1 placeholders
+	q := "update t set secret = ? where id in (?"
+	for i := 2; i < n; i++ {
+		q += ", ?"
+	}
+	q += ")"
+	params := [][]byte{verifMarker("value", 3)}
+	for i := 1; i < n; i++ {
+		params = append(params, []byte{byte('0' + i)})
+	}
+	if !verifPrepare(h, ctx, parser, 1, q, n) {
+		verif.Assert(false, "prepared")
+		return
+	}
+	packet := verifExecutePacket(1, params)
+	_, err := h.handleStatementExecute(ctx, packet)
+	verif.Reach("executed")
+	verif.Assert(err == nil, "execute-no-error")
+	if err != nil {
+		return
+	}
+	out, ok := verifExecuteParams(packet.GetData(), n)
+	verif.Assert(ok, "rewritten-execute-well-formed")
+	if !ok {
+		return
+	}
+	verif.Assert(len(out[0]) > 3, "protected-parameter-rewritten")
+	for i := 1; i < n; i++ {
+		verif.Assert(verif.Eq(out[i], params[i]), "untouched-parameter-identical")
+	}
 }
